@@ -2,7 +2,7 @@
 from . import _hub
 
 CONFIG = dict(
-    modules=["SigModel.Props.C03"],
+    modules=["SigModel.Props.C03", "SigModel.Props.C05"],
     theorems=["SigModel.Hub.reachable_inv", "SigModel.Hub.C03_facts", "SigModel.Hub.C03_subjects_per_backend", "SigModel.Hub.C03_rooms_distinct", "SigModel.Hub.C03_foreign_session_unreachable", "SigModel.Hub.C03_room_session_lookup", "SigModel.Hub.C03_join_does_not_kick_foreign", "SigModel.Hub.C05_routing", "SigModel.Hub.C05_addressed_once_not_sender"],
     generated=["Hub"],
     harness=_hub.HARNESS,
